@@ -15,9 +15,10 @@ theorem helperMono :
     (∀ p, ChkMono (handleUndefined · p)) ∧ (∀ k, ChkMono (isTrueChk · k)) ∧
     (∀ k, ChkMono (assertIterable · k)) ∧ (∀ k, ChkMono (tryIterChk · k)) ∧
     (∀ k, ChkMono (assertNotUndef · k)) ∧ (∀ k, ChkMono (emitChk · k)) ∧
-    (∀ k, ChkMono (envFormatChk · k)) ∧ (∀ k, ChkMono (sliceChk · k)) := by
+    (∀ k m m' b, m' ≤ m → envFormat m k = .ok b → envFormat m' k = .ok b) ∧ (∀ k, ChkMono (sliceChk · k)) := by
   refine ⟨?_, ?_, ?_, ?_, ?_, ?_, ?_, ?_⟩
   · intro p m m'; cases m <;> cases m' <;> cases p <;> decide
+  case refine_7 => intro k m m' b; cases m <;> cases m' <;> cases k <;> cases b <;> decide
   all_goals (intro k m m'; cases m <;> cases m' <;> cases k <;> decide)
 
 
@@ -80,9 +81,6 @@ theorem modeGuard_mono (i : Instr) (s : St) : ChkMono (modeGuard · i s) := by
   unfold modeGuard
   split
   · split
-    · exact hF _ m m' h
-    · exact hE _ m m' h
-  · split
     · exact fun x => x
     · exact hH _ m m' h
   · split
@@ -104,6 +102,30 @@ theorem modeGuard_mono (i : Instr) (s : St) : ChkMono (modeGuard · i s) := by
   · split
     · exact testGuard_mono _ _ m m' h
     · exact fun x => x
+  · exact fun x => x
+
+/-- `Emit` (default and custom formatter) only adds errors with strictness, and a success is the
+    same success: in particular the formatter is reached under `m'` iff it was under `m` -/
+theorem stepEmit_mono (m m' : Mode) (s s' : St) (h : m' ≤ m) : stepEmit m s = .ok s' → stepEmit m' s = .ok s' := by
+  obtain ⟨_, _, _, _, _, hE, hF, _⟩ := helperMono
+  unfold stepEmit
+  split
+  · rename_i v r _
+    split
+    · intro hs
+      cases hg : emitChk m v.kind with
+      | error e => simp [hg] at hs
+      | ok u =>
+        cases u
+        have hg' : emitChk m' v.kind = .ok () := hE _ m m' h hg
+        rw [hg']
+        simpa [hg] using hs
+    · intro hs
+      cases hg : envFormat m v.kind with
+      | error e => simp [hg] at hs
+      | ok b =>
+        rw [hF _ m m' b h hg]
+        simpa [hg] using hs
   · exact fun x => x
 
 end MJ.Undef
